@@ -604,7 +604,7 @@ class Interp:
         it = self.eval(s.iter, f)
         if sp is not None:
             return self.loop_with_invariant(s, f, sp, kind="for", iterable=it)
-        seq = self.iterate(it)
+        seq = _LiveList(it) if isinstance(it, list) else self.iterate(it)     # CPython iterates a list by index, live
         n = 0
         for v in seq:
             n += 1
@@ -1072,6 +1072,19 @@ class _ClassScope(dict):
 
     def get(self, k, d=None):
         return self[k] if k in self else d
+
+
+class _LiveList:
+    """list iteration as CPython does it: by index into the live list (mutation during iteration is visible)"""
+
+    def __init__(self, lst):
+        self.lst = lst
+
+    def __iter__(self):
+        i = 0
+        while i < len(self.lst):
+            yield self.lst[i]
+            i += 1
 
 
 class ModuleRef:
